@@ -20,7 +20,8 @@ FIELDS = {0: [['note', 'optText', False], ['f', 'optFile', False], ['fs', 'files
           1: [['title', 'text', False], ['doc', 'file', False]],
           2: [['a', 'text', False], ['b', 'text', False], ['pics', 'files', False]],
           3: [['x', 'text', False], ['y', 'optText', False]]}
-MIMES = ['application/octet-stream', 'image/png', 'text/plain', 'text/plain; charset=utf-8', 'application/pdf']
+MIMES = ['application/octet-stream', 'image/png', 'text/plain', 'text/plain; charset=utf-8', 'application/pdf', 'multipart/related', 'multipart/signed; micalg=sha-256', 'multipart/byteranges', 'message/rfc822',
+         'application/x-www-form-urlencoded', 'multipart/form-data', 'MULTIPART/MIXEDX', 'x/y; a=b; c="d;e"']          # any media type (a part of type multipart/mixed itself is a nested multipart, which RFC 7578 deprecates: not generated)
 
 
 def content_gen(rng, boundary):
